@@ -550,3 +550,137 @@ Proof.
     apply pget_filter; [exact H1|]. cbn [snd]. rewrite H2. reflexivity.
   - cbn [fst]. apply trusted_pupd; [cbn; tauto|exact Ht].
 Qed.
+
+(* ------------------------------------------------------------------ *)
+(* starting from the cache file, restart *)
+Lemma strip_idem : forall s, strip (strip s) = strip s.
+Proof.
+  induction s as [|c r IH]; [reflexivity|]. unfold strip in *. cbn [filter].
+  destruct (negb (is_ws c)) eqn:E; [cbn [filter]; rewrite E, IH; reflexivity|exact IH].
+Qed.
+
+Definition stripped (k : str) : Prop := exists raw, k = strip raw.
+
+Lemma load_file_stripped : forall es k, In k (keys (load_file es)) -> stripped k.
+Proof.
+  intros es. unfold load_file. generalize (json_members es). intros kes.
+  assert (G : forall acc, (forall k, In k (keys acc) -> stripped k) ->
+              forall k, In k (keys (fold_left (fun acc ke => match load_entry (snd ke) with Some (a, p) => pset a p acc | None => acc end) kes acc)) -> stripped k).
+  { induction kes as [|ke r IH]; intros acc Hacc k Hk; cbn [fold_left] in Hk; [apply Hacc; exact Hk|].
+    apply (IH _) in Hk; [exact Hk|]. intros k' Hk'.
+    destruct (load_entry (snd ke)) as [[a p]|] eqn:El; [|apply Hacc; exact Hk'].
+    apply keys_pset in Hk' as [->|Hk']; [|apply Hacc; exact Hk'].
+    unfold load_entry in El. destruct (validate_address (f_key (snd ke)) true) as [c|] eqn:Ev; [|discriminate].
+    destruct (f_seen (snd ke)); [|discriminate].
+    destruct (validate_address (f_addr (snd ke)) true) as [c'|]; [|discriminate].
+    destruct (str_eqb c c'); [|discriminate]. injection El as <- _.
+    exists (f_key (snd ke)). eapply validate_accept_clean. exact Ev. }
+  apply G. intros k [].
+Qed.
+
+Lemma keys_filter : forall (P : str * peer -> bool) l k, In k (keys (filter P l)) -> exists p, In (k, p) l /\ P (k, p) = true.
+Proof.
+  intros P l k H. unfold keys in H. apply in_map_iff in H as [[k' p] [Hk Hin]]. cbn [fst] in Hk. subst k'.
+  apply filter_In in Hin as [Hin HP]. exists p. tauto.
+Qed.
+Lemma in_keys : forall (l : pl) k p, In (k, p) l -> In k (keys l).
+Proof. intros l k p H. unfold keys. apply (in_map fst) in H. exact H. Qed.
+
+Lemma cache_filter_valid : forall allow l, (forall k, In k (keys l) -> stripped k) -> all_valid allow (cache_filter allow l).
+Proof.
+  intros allow l Hs k Hk. unfold cache_filter in Hk. apply keys_filter in Hk as [p [Hin HP]]. cbn [fst] in HP.
+  destruct (validate_address k allow) as [c|] eqn:Ev; [|discriminate].
+  destruct (Hs k (in_keys _ _ _ Hin)) as [raw ->].
+  pose proof (validate_accept_valid _ _ _ Ev) as Hv. rewrite (validate_accept_clean _ _ _ Ev), strip_idem in Hv. exact Hv.
+Qed.
+
+Lemma cache_cut_valid : forall allow max l kept r, all_valid allow l -> cache_cut max l kept = Some r -> all_valid allow r.
+Proof.
+  intros allow max l kept r V H. unfold cache_cut in H. destruct ((0 <? max) && (max <? plen l)).
+  - destruct (plen (filter (fun e : str * peer => str_mem (fst e) kept) l) =? max); [|discriminate]. injection H as <-.
+    intros k Hk. apply keys_filter in Hk as [p [Hin _]]. apply V. eapply in_keys. exact Hin.
+  - injection H as <-. exact V.
+Qed.
+Lemma cache_cut_bound : forall max l kept r, 0 < max -> cache_cut max l kept = Some r -> plen r <= max.
+Proof.
+  intros max l kept r Hm H. unfold cache_cut in H. destruct ((0 <? max) && (max <? plen l)) eqn:E.
+  - destruct (plen (filter (fun e : str * peer => str_mem (fst e) kept) l) =? max) eqn:E2; [|discriminate]. injection H as <-. lia.
+  - injection H as <-. lia.
+Qed.
+
+Lemma untrust_all_valid : forall allow l, all_valid allow l -> all_valid allow (untrust_all l).
+Proof. intros allow l V k Hk. apply V. unfold keys, untrust_all in *. rewrite map_map in Hk. cbn [fst] in Hk. exact Hk. Qed.
+Lemma untrust_all_len : forall l, plen (untrust_all l) = plen l.
+Proof. intros. unfold plen, untrust_all. rewrite map_length. reflexivity. Qed.
+
+Lemma add_defaults_valid : forall max allow defaults l now r,
+  all_valid allow l -> add_defaults max allow l defaults now = Some r -> all_valid allow r.
+Proof.
+  induction defaults as [|d ds IH]; intros l now r V H; cbn [add_defaults] in H; [injection H as <-; exact V|].
+  pose proof (step_all_valid max allow l (AddPeer d now None) V) as V1.
+  destruct (step max allow l (AddPeer d now None)) as [l1 o1]. destruct o1; try discriminate. cbn [fst] in V1.
+  pose proof (step_all_valid max allow l1 (SetTrusted d) V1) as V2.
+  destruct (step max allow l1 (SetTrusted d)) as [l2 o2]. destruct o2; try discriminate. cbn [fst] in V2.
+  eapply IH; eassumption.
+Qed.
+Lemma add_defaults_bound : forall max allow defaults l now r,
+  0 < max -> plen l <= max -> add_defaults max allow l defaults now = Some r -> plen r <= max.
+Proof.
+  induction defaults as [|d ds IH]; intros l now r Hm Hl H; cbn [add_defaults] in H; [injection H as <-; exact Hl|].
+  pose proof (step_bound max allow l (AddPeer d now None) Hm Hl) as B1.
+  destruct (step max allow l (AddPeer d now None)) as [l1 o1]. destruct o1; try discriminate. cbn [fst] in B1.
+  pose proof (step_bound max allow l1 (SetTrusted d) Hm B1) as B2.
+  destruct (step max allow l1 (SetTrusted d)) as [l2 o2]. destruct o2; try discriminate. cbn [fst] in B2.
+  eapply IH; eassumption.
+Qed.
+
+(* the initial-state lemma: whatever the cache file holds, the list pex.New starts
+   with only holds addresses valid under the CONFIGURED localhost policy *)
+Lemma start_all_valid : forall max allow disable es kept defaults now l,
+  start max allow disable es kept defaults now = Some l -> all_valid allow l.
+Proof.
+  intros max allow disable es kept defaults now l H. unfold start in H.
+  destruct (cache_cut max (cache_filter allow (load_file es)) kept) as [l0|] eqn:Ec; [|discriminate].
+  destruct (add_defaults max allow (untrust_all l0) defaults now) as [l1|] eqn:Ed; [|discriminate].
+  injection H as <-.
+  assert (V1 : all_valid allow l1).
+  { eapply add_defaults_valid; [|exact Ed]. apply untrust_all_valid.
+    eapply cache_cut_valid; [|exact Ec]. apply cache_filter_valid. apply load_file_stripped. }
+  destruct disable; [apply untrust_all_valid|]; exact V1.
+Qed.
+Lemma start_bound : forall max allow disable es kept defaults now l,
+  0 < max -> start max allow disable es kept defaults now = Some l -> plen l <= max.
+Proof.
+  intros max allow disable es kept defaults now l Hm H. unfold start in H.
+  destruct (cache_cut max (cache_filter allow (load_file es)) kept) as [l0|] eqn:Ec; [|discriminate].
+  destruct (add_defaults max allow (untrust_all l0) defaults now) as [l1|] eqn:Ed; [|discriminate].
+  injection H as <-.
+  assert (B1 : plen l1 <= max).
+  { eapply add_defaults_bound; [exact Hm| |exact Ed]. rewrite untrust_all_len. eapply cache_cut_bound; eassumption. }
+  destruct disable; [rewrite untrust_all_len|]; exact B1.
+Qed.
+
+Lemma xstep_all_valid : forall max allow l x, all_valid allow l -> all_valid allow (fst (xstep max allow l x)).
+Proof.
+  intros max allow l [o|kept defaults disable now] V; cbn [xstep]; [apply step_all_valid; exact V|].
+  destruct (start max allow disable (saved_entries l) kept defaults now) as [l'|] eqn:E; [|exact V].
+  cbn [fst]. eapply start_all_valid. exact E.
+Qed.
+Lemma xstep_bound : forall max allow l x, 0 < max -> plen l <= max -> plen (fst (xstep max allow l x)) <= max.
+Proof.
+  intros max allow l [o|kept defaults disable now] Hm Hl; cbn [xstep]; [apply step_bound; assumption|].
+  destruct (start max allow disable (saved_entries l) kept defaults now) as [l'|] eqn:E; [|exact Hl].
+  cbn [fst]. eapply start_bound; eassumption.
+Qed.
+Lemma xrun_all_valid : forall max allow xs l, all_valid allow l -> all_valid allow (xrun max allow l xs).
+Proof. induction xs as [|x r IH]; intros l V; cbn [xrun]; [exact V|]. apply IH. apply xstep_all_valid. exact V. Qed.
+Lemma xrun_bound : forall max allow xs l, 0 < max -> plen l <= max -> plen (xrun max allow l xs) <= max.
+Proof. induction xs as [|x r IH]; intros l Hm Hl; cbn [xrun]; [exact Hl|]. apply IH; [exact Hm|]. apply xstep_bound; assumption. Qed.
+
+Lemma all_valid_from_cache : forall max allow disable es kept defaults now l0 xs k,
+  start max allow disable es kept defaults now = Some l0 ->
+  In k (keys (xrun max allow l0 xs)) -> valid_form allow k.
+Proof. intros max allow disable es kept defaults now l0 xs k H. apply xrun_all_valid. eapply start_all_valid. exact H. Qed.
+Lemma bound_from_cache : forall max allow disable es kept defaults now l0 xs,
+  0 < max -> start max allow disable es kept defaults now = Some l0 -> plen (xrun max allow l0 xs) <= max.
+Proof. intros. apply xrun_bound; [assumption|]. eapply start_bound; eassumption. Qed.
